@@ -36,7 +36,11 @@ class CTRLInterface(UDPLink):
 		# NOTE: trxcon may send up to TRXC_BUF_SIZE (1024) octets,
 		# e.g. SETFH with a long Mobile Allocation
 		data, remote = self.sock.recvfrom(1024)
-		data = data.decode()
+		try:
+			data = data.decode()
+		except UnicodeDecodeError:
+			log.error("Non-text data on TRXC interface")
+			return
 
 		if not self.verify_req(data):
 			log.error("Wrong data on TRXC interface")
@@ -44,7 +48,12 @@ class CTRLInterface(UDPLink):
 
 		# Attempt to parse a command
 		request = self.prepare_req(data)
-		rc = self.parse_cmd(request)
+		try:
+			rc = self.parse_cmd(request)
+		except ValueError:
+			# e.g. a non-numeric argument where a number is expected
+			log.error("Malformed TRXC command: %s" % request)
+			rc = -1
 
 		if type(rc) is tuple:
 			self.send_response(request, remote, rc[0], rc[1])
